@@ -9,11 +9,11 @@ import traceback
 from . import facts, model, analysis, anchor
 
 VERIF = facts.VERIF
-UNITS_PROPS = ("C02", "C03", "C04", "C05", "C06", "C07", "C17", "C19")
+UNITS_PROPS = ("C02", "C03", "C04", "C05", "C06", "C07", "C15", "C17", "C19", "C20")
 UNITS_NOTE = (" (U) Units-of-measure analysis (rule id %s.U, rules/units.py): every function of the program that touches share counts, share values, token "
-              "amounts or dollar limits is dimensionally consistent - asset shares, liability shares, tokens and dollars (dimensions of the leaves fixed by "
+              "amounts or dollar limits is dimensionally consistent - asset shares, liability shares, tokens, dollars, unix seconds and slots (dimensions of the leaves fixed by "
               "the state field names and the converter API, everything else inferred by unification over the expression trees) are combined only through "
-              "the share-value converters; a function with no consistent assignment (shares compared with / subtracted from / passed as an amount) is reported.")
+              "the share-value converters, and each function's inferred parameter dimensions are enforced at its call sites; a function with no consistent assignment (shares compared with / subtracted from / passed as an amount) is reported.")
 
 
 # development runs against a scratch tree (VERIF_REPO) never touch the registered evidence files
